@@ -108,3 +108,55 @@ Proof.
   - intros h idx H. unfold retr_host_of. now rewrite (storage_retrieve_scanned s scanned _ idx Hok Hs H).
   - intros f idx H. now apply (scanned_parsed s scanned f idx).
 Qed.
+
+(* ---- the web verdict, end to end: storage -> engine -> lookup -> NewMatchingResult -> GetBasicResult ---- *)
+From UF Require Import Model.Options Proofs.C06Proofs Proofs.C06Set.
+
+Lemma nodup_map_inj {A B} (g : A -> B) l a b : NoDup (map g l) -> In a l -> In b l -> g a = g b -> a = b.
+Proof.
+  induction l as [|x l IH]; [intros _ []|]. cbn [map]. intro Hnd. inversion Hnd as [|y ys Hy Hnd']; subst.
+  intros [->|Ha] [->|Hb] E; auto.
+  - exfalso. apply Hy. rewrite E. now apply in_map.
+  - exfalso. apply Hy. rewrite <- E. now apply in_map.
+Qed.
+
+(* with an intact storage, parsed rules and no rule text occurring twice, MatchAll reports exactly the matching
+   rules (as a set of rule objects, not only of texts) *)
+Lemma match_all_same_set hash psl retr rules q :
+  parsed rules -> (forall f idx, In (f, idx) rules -> retr idx = Some f) ->
+  NoDup (map (fun ri => nr_text (fst ri)) rules) ->
+  same_set (match_all hash psl retr (build_net hash rules) q) (filter (fun f => rmatch psl f q) (map fst rules)).
+Proof.
+  intros P HR Hnd f. rewrite filter_In.
+  assert (RS : retr_sound retr rules).
+  { intros idx g H [g0 H0]. rewrite (HR _ _ H0) in H. inversion H; subst. exact H0. }
+  split.
+  - intro H. destruct (match_all_sound hash psl retr rules q f RS H) as [M Hin]. auto.
+  - intros [Hin M]. apply in_map_iff in Hin as ([f0 idx] & E & Hin). cbn [fst] in E. subst f0.
+    destruct (match_all_complete hash psl retr rules q f idx HR (parsed_pdomains_ok rules f idx P Hin)
+                (parsed_text_coherent psl rules q P) Hin M) as (f' & Hf' & Ht & _).
+    destruct (match_all_sound hash psl retr rules q f' RS Hf') as [_ Hin'].
+    apply in_map_iff in Hin' as ([f1 idx'] & E & Hin'). cbn [fst] in E. subst f1.
+    assert (Epair : (f', idx') = (f, idx)) by (apply (nodup_map_inj (fun ri => nr_text (fst ri)) rules); auto).
+    inversion Epair; subst. exact Hf'.
+Qed.
+
+(* Engine.MatchRequest + GetBasicResult = the order-free verdict over the rules of the lists that match the
+   request, and over those that match the referrer as a document request *)
+Theorem web_verdict_end_to_end hash psl s scanned q :
+  storage_ok s -> storage_scan s = Ok scanned ->
+  let rules := net_rules_of scanned in
+  NoDup (map (fun ri => nr_text (fst ri)) rules) ->
+  verdict_of (get_basic_result (engine_match_request hash psl (retr_net_of s) (build_net hash rules) q)) =
+  spec_web_verdict (filter (fun f => rmatch psl f q) (map fst rules))
+                   (if isnil (rq_source_url q) then []
+                    else filter (fun f => rmatch psl f (new_request psl (rq_source_url q) [] TypeDocument)) (map fst rules)).
+Proof.
+  intros Hok Hs rules Hnd. unfold engine_match_request. rewrite web_verdict.
+  assert (P : parsed rules) by (intros f idx H; apply net_rules_of_in in H; now apply (scanned_parsed s scanned f idx)).
+  assert (HR : forall f idx, In (f, idx) rules -> retr_net_of s idx = Some f).
+  { intros f idx H. apply net_rules_of_in in H. unfold retr_net_of. now rewrite (storage_retrieve_scanned s scanned _ idx Hok Hs H). }
+  apply web_verdict_same_set.
+  - now apply match_all_same_set.
+  - destruct (isnil (rq_source_url q)); [intro x; tauto | now apply match_all_same_set].
+Qed.
